@@ -688,7 +688,9 @@ def run_inventory(F, rep, tier, pid, roots, floors, what):
             cands = [k for k in audits_by_base.get(base, ()) if k not in used_audits]
             cands.sort(key=lambda k: (k != key, k))
             opsig = g1_panic.site_opsig(A, s)
-            hit = next((k for k in cands if all(g in sigs for g in audits[k].get("guards", [])) and audits[k].get("ops", opsig) == opsig), None)
+            rg = set(g1_panic.relevant_guards(A, s, precise=True))
+            hit = next((k for k in cands if all(g in sigs for g in audits[k].get("guards", [])) and audits[k].get("ops", opsig) == opsig
+                        and all(g in rg for g in audits[k].get("rguards", []))), None)
             if hit is not None:
                 used_audits.add(hit)
                 by_rule["audited"] += 1
@@ -696,7 +698,7 @@ def run_inventory(F, rep, tier, pid, roots, floors, what):
                 continue
             if cands:
                 au = audits[cands[0]]
-                lost = [g for g in au.get("guards", []) if g not in sigs]
+                lost = [g for g in au.get("guards", []) if g not in sigs] or [g for g in au.get("rguards", []) if g not in rg]
                 if lost:
                     rep.violation(r1, key, "audited site lost its guard(s) %s (audit: %s); reachable via %s" % (lost, au["reason"], path_text(G, pred, n)), where)
                 else:
